@@ -1,0 +1,33 @@
+//go:build verif
+
+package mutagen
+
+// VerifPattern is the exported view of a parsed ignorePattern. Verification
+// hook (add-only, build tag verif): wrappers only, no behaviour change.
+type VerifPattern struct {
+	Negated       bool
+	DirectoryOnly bool
+	MatchLeaf     bool
+	Pattern       string
+	p             *ignorePattern
+}
+
+// VerifNewIgnorePattern calls newIgnorePattern.
+func VerifNewIgnorePattern(pattern string) (*VerifPattern, error) {
+	p, err := newIgnorePattern(pattern)
+	if err != nil {
+		return nil, err
+	}
+	return &VerifPattern{
+		Negated:       p.negated,
+		DirectoryOnly: p.directoryOnly,
+		MatchLeaf:     p.matchLeaf,
+		Pattern:       p.pattern,
+		p:             p,
+	}, nil
+}
+
+// Matches calls ignorePattern.matches.
+func (v *VerifPattern) Matches(path string, directory bool) bool {
+	return v.p.matches(path, directory)
+}
